@@ -232,6 +232,7 @@ impl Property for C03 {
         let mut out: Vec<Value> = plans.into_iter().map(|p| json!({"large": p})).collect();
         let mult = [7919u32, 104_729][(seed % 2) as usize];
         out.push(json!({"deep": (300u32, mult, 25u32, PathSel::Builder)}));
+        out.push(json!({"deep": (260u32, mult, 12u32, PathSel::Bin(3))}));
         out.push(json!({"fanin": (300u32, mult, 25u32, PathSel::Bin(3))}));
         out.push(json!({"bulk": (65_800u32, mult, 50u32, PathSel::Builder)}));
         if tier == Tier::Thorough {
